@@ -11,6 +11,7 @@
 Does not decide: the curve itself (C07), floating-point scaling exactness.
 """
 import ast
+import re
 
 import astq
 import cfg as cfgmod
@@ -26,6 +27,12 @@ EXPLANATION = (
 
 REDUCERS = {'min', 'max', 'sum', 'mean', 'median', 'std', 'var', 'argsort', 'sort', 'cumsum', 'cumprod', 'unique', 'argmin', 'argmax', 'nanmin', 'nanmax', 'nansum',
             'nanmean', 'roll', 'diff', 'ptp', 'percentile', 'quantile', 'searchsorted', 'any', 'all', 'prod', 'amin', 'amax', 'rank', 'flip', 'shuffle', 'permutation'}
+
+
+def _is_half(f, name):
+    """`name` is the number of dimensions: <rows>.shape[1] // 2."""
+    g, d = astq.unique_def(f, name)
+    return isinstance(d, ast.AST) and norm(d).endswith('.shape[1] // 2')
 
 
 def run(P, R, tier):
@@ -90,7 +97,9 @@ def run(P, R, tier):
             if isinstance(elt, ast.Tuple) and len(elt.elts) == 2 and all(isinstance(e, ast.Subscript) for e in elt.elts):
                 rng = s
                 a, b = elt.elts
-                ok = norm(a.value) == norm(b.value) == dfb.params[1] and norm(a.slice) == d and norm(b.slice) in (f'{d} + n', f'n + {d}')
+                mB = re.fullmatch(rf'(?:{d} \+ (\w+)|(\w+) \+ {d})', norm(b.slice))
+                half = (mB.group(1) or mB.group(2)) if mB else None
+                ok = norm(a.value) == norm(b.value) == dfb.params[1] and norm(a.slice) == d and half is not None and _is_half(dfb, half)
                 R.check(ok, 'C08.c', dfb, s, 'range of dimension d is (total[d], total[d+n])', f'range `{norm(elt)}` is not (total_bounds[d], total_bounds[d + n]) of the same d')
             elif isinstance(elt, ast.BinOp) and isinstance(elt.op, ast.Div):
                 mids = s
@@ -98,7 +107,9 @@ def run(P, R, tier):
                 ok = isinstance(num, ast.BinOp) and isinstance(num.op, ast.Add) and all(isinstance(x, ast.Subscript) for x in (num.left, num.right))
                 if ok:
                     cols = sorted([norm(num.left.slice), norm(num.right.slice)], key=len)
-                    ok = cols[0] in (f'(:, {d})', f':, {d}') and cols[1] in (f'(:, {d} + n)', f'(:, n + {d})') and norm(num.left.value) == norm(num.right.value) == dfb.params[0] \
+                    mC = re.fullmatch(rf'\(?:, (?:{d} \+ (\w+)|(\w+) \+ {d})\)?', cols[1])
+                    half = (mC.group(1) or mC.group(2)) if mC else None
+                    ok = cols[0] in (f'(:, {d})', f':, {d}') and half is not None and _is_half(dfb, half) and norm(num.left.value) == norm(num.right.value) == dfb.params[0] \
                         and norm(elt.right) in ('2.0', '2')
                 R.check(ok, 'C08.c', dfb, s, 'centre of dimension d is (bounds[:, d] + bounds[:, d+n]) / 2', f'centre `{norm(elt)}` is not (lb_d + ub_d) / 2 of the same dimension')
     if rng is None or mids is None:
@@ -149,13 +160,15 @@ def run(P, R, tier):
             cmpn = s.targets[0].slice
             if norm(s.targets[0].value) != resname:
                 continue
-            op = cmpn.ops[0]
-            if isinstance(op, ast.Lt) and norm(cmpn.comparators[0]) == '0' and norm(s.value) == '0':
-                lo = s
-            if isinstance(op, ast.Gt) and norm(cmpn.comparators[0]) == norm(s.value) and '- 1' in norm(s.value):
-                hi = s
-            if isinstance(op, ast.GtE) and '- 1' in norm(s.value) and norm(cmpn.comparators[0]) in (norm(s.value), norm(s.value).replace(' - 1', '')):
-                hi = s
+            for l_, op, r_ in astq.cmp_forms(cmpn):
+                if norm(l_) != resname:
+                    continue
+                if op is ast.Lt and norm(r_) == '0' and norm(s.value) == '0':
+                    lo = s
+                if op is ast.Gt and norm(r_) == norm(s.value) and '- 1' in norm(s.value):
+                    hi = s
+                if op is ast.GtE and '- 1' in norm(s.value) and norm(r_) in (norm(s.value), norm(s.value).replace(' - 1', '')):
+                    hi = s
     for nm, st in (('lower clip (<0 -> 0)', lo), ('upper clip (>n-1 -> n-1)', hi)):
         ok = st is not None and all(C.dominates(C.node(st), C.node(r)) for r in rets)
         R.check(ok, 'C08.d', d2c, st, f'{nm} dominates the return', f'{nm} is missing or can be bypassed: centres on the upper edge / outside total_bounds leave the grid',
